@@ -249,6 +249,10 @@ func c16Run(c *core.Ctx, i int) {
 		}
 		return
 	}
+	if i%20 == 4 {
+		c16Special(c)
+		return
+	}
 	g := &vmGen{unsafe: 0.04, zeroStep: true}
 	prog, globals := vmProgram(r, g)
 	text := gen.Print(prog, nil)
@@ -288,4 +292,51 @@ func c16Probe(c *core.Ctx, f core.Finding) (bool, string) {
 		}
 	}
 	return false, "no disagreement in 40 programs of this region"
+}
+
+// c16Special: comparisons and negated comparisons on the special numbers (NaN, +-Inf, -0) that the
+// generator's arithmetic rarely reaches, in conditions of if / else-if chains and while loops: the VM and
+// the evaluator must agree on every global. NaN is reached arithmetically (inf - inf).
+func c16Special(c *core.Ctx) {
+	r := c.Rng
+	var b strings.Builder
+	var globals []gen.VarInfo
+	decl := func(name, expr string, t *gen.Type) {
+		fmt.Fprintf(&b, "%s := %s\n%s = %s\n", name, expr, name, name) // every variable must be used
+		globals = append(globals, gen.VarInfo{Name: name, T: t, Len: -1})
+	}
+	b.WriteString("big := 10\nfor range 400\n    big = big * 10\nend\n")
+	globals = append(globals, gen.VarInfo{Name: "big", T: tNum, Len: -1})
+	decl("nan", "big - big", tNum)
+	decl("ninf", "-big", tNum)
+	decl("one", fmt.Sprint(1+r.Intn(5)), tNum)
+	decl("negz", "-0 * one", tNum)
+	vals := []string{"nan", "big", "ninf", "one", "negz", "-nan", "(nan)", "0"}
+	ops := []string{"<", "<=", ">", ">=", "==", "!="}
+	n := 0
+	for k := 0; k < 14; k++ {
+		l, rr, op := vals[r.Intn(len(vals))], vals[r.Intn(len(vals))], ops[r.Intn(len(ops))]
+		n++
+		switch r.Intn(4) {
+		case 0:
+			decl(fmt.Sprintf("c%d", n), fmt.Sprintf("%s %s %s", l, op, rr), tBool)
+		case 1:
+			decl(fmt.Sprintf("c%d", n), fmt.Sprintf("!(%s %s %s)", l, op, rr), tBool)
+		case 2:
+			decl(fmt.Sprintf("c%d", n), fmt.Sprintf("!!(%s %s %s) == !(%s %s %s)", l, op, rr, rr, op, l), tBool)
+		default:
+			decl(fmt.Sprintf("r%d", n), "0", tNum)
+			fmt.Fprintf(&b, "if !(%s %s %s)\n    r%d = 1\nelse if %s %s %s\n    r%d = 2\nelse if !(%s %s %s)\n    r%d = 3\nend\n", l, op, rr, n, rr, op, l, n, l, ops[r.Intn(len(ops))], rr, n)
+		}
+	}
+	decl("cnt", "0", tNum)
+	fmt.Fprintf(&b, "while !(nan %s cnt)\n    cnt = cnt + 1\n    if cnt > 3\n        break\n    end\nend\n", ops[r.Intn(4)])
+	decl("cnt2", "0", tNum)
+	fmt.Fprintf(&b, "while !(cnt2 %s 3) == false\n    cnt2 = cnt2 + 1\n    if cnt2 > 5\n        break\n    end\nend\n", pick(r, "<", "<="))
+	text := b.String()
+	c.Cover("family", "special-number-comparisons")
+	c.Journal(text)
+	c.Distinct(text)
+	c.Event("disagreements_checked", 1)
+	c16Compare(c, text, globals, "")
 }
